@@ -110,7 +110,7 @@ impl Config {
 
         if let Some(v) = value.get("statsPath") {
             if let Value::String(path) = v {
-                base.file_dict_path = path.try_resolve()?.to_path_buf();
+                base.stats_path = path.try_resolve()?.to_path_buf();
             } else {
                 bail!("fileDict path must be a string.");
             }
